@@ -65,3 +65,127 @@ def c19(ctx):
     return M.finish(ctx, rule="one trace = one bubble run of utils.Timer (TLC behaviour of Timer.tla replayed through the "
                     "verif gates, or a seeded random script); distinct = distinct event-name sequences",
                     evs=evs)
+
+
+# ------------------------------------------------------------- C13 / C14 / C15
+WT_LENS = "{0,1,125,126,127,4095,4096,4097,8209,8210,8211,8229,65535,65536,65537,70000}"
+WT_LENS_SMALL = "{0,1,15,16,17,31,32,33,34,49,50,51,52,125,126,300}"
+WT_DEV_ASIS = "{}"   # deviations of the code as it stands (both repaired by fix: commits, see known-findings.json)
+
+
+def wt_cfg(dev, lens, geoms, maxchunks, inv, emit="FALSE"):
+    return ("SPECIFICATION Spec\nCONSTANTS Deviations = %s Lens = %s Geoms = %s MaxChunks = %d Emit = %s\nINVARIANTS %s\n"
+            % (dev, lens, geoms, maxchunks, emit, inv))
+
+
+def wt_cells(ctx, dev, lens, geoms, maxchunks, name):
+    d = M.tlc_dir(ctx, "c_" + name)
+    M.write_cfg(d, name, wt_cfg(dev, lens, geoms, maxchunks, "EmitCell", "TRUE"))
+    rc, out = M.sh(["tlc", "-workers", "1", "-metadir", os.path.join(d, "meta"), "-config", name + ".cfg", "WTFrame.tla"],
+                   cwd=d, timeout=600, env={"JAVA_TOOL_OPTIONS": "-Xss512m"})
+    cells = []
+    for line in out.splitlines():
+        line = line.strip()
+        if line.startswith('"CELL '):
+            cells.append(json.loads(json.loads(line)[5:]))
+    if not cells:
+        raise M.Inconclusive("no cells from TLC (%s)" % d)
+    return cells
+
+
+def wt_models(ctx):
+    q = ctx.quick
+    mc = 2
+    for dev, inv, nm in (("{}", "Design_RoundTrip AsIs_HeaderExact", "design"),
+                         (WT_DEV_ASIS, "AsIs_RoundTrip AsIs_HeaderExact", "asis")):
+        if dev == "{}" and nm == "asis":
+            continue
+        M.tlc_model(ctx, "WTFrame", wt_cfg(dev, WT_LENS, "{4096}", mc, inv), "wt_%s_4096" % nm, extra=[], timeout=900)
+        M.tlc_model(ctx, "WTFrame", wt_cfg(dev, WT_LENS_SMALL, "{16, 1}", mc, inv), "wt_%s_small" % nm, timeout=900)
+
+
+def wt_writer_run(ctx):
+    q = ctx.quick
+    cells = wt_cells(ctx, WT_DEV_ASIS, WT_LENS, "{4096}", 1 if q else 2, "big")
+    cells += wt_cells(ctx, WT_DEV_ASIS, WT_LENS_SMALL, "{16, 1}", 1 if q else 2, "small")
+    if q:
+        # quick: all single-chunk cells plus a seeded sample of two-chunk cells
+        import random
+        rnd = random.Random(ctx.seed)
+        two = wt_cells(ctx, WT_DEV_ASIS, "{0,1,126,4096,4097,8211,65536}", "{4096}", 2, "two")
+        two = [c for c in two if len(c["cell"]["chunks"]) == 2]
+        rnd.shuffle(two)
+        cells += two[:300]
+    elif len(cells) > 9000:
+        import random
+        random.Random(ctx.seed).shuffle(cells)
+        cells = cells[:9000]
+    ctx.extra["cells_replayed"] = len(cells)
+    trace, summ = M.go_family(ctx, "wtw", behaviours=[[c] for c in cells], nrandom=100 if q else 1500, timeout=2400)
+    return trace, summ, cells
+
+
+MON_WT_CFG = ('SPECIFICATION MSpec\nCONSTANTS TraceFile = "trace.ndjson" Deviations = %s Lens = {0} Geoms = {16} MaxChunks = 1 Emit = FALSE\n'
+              'CHECK_DEADLOCK FALSE\n' % WT_DEV_ASIS)
+
+
+def wt_common(ctx, props, writer=True, reader=True):
+    viols, evs_all = [], []
+    if writer:
+        wt_models(ctx)
+        trace, summ, cells = wt_writer_run(ctx)
+        v, lines = M.tlc_trace(ctx, "WTMon", MON_WT_CFG, "wtw", trace, timeout=2400)
+        ctx.nonconf += len(ctx.last_nonconf)
+        if ctx.last_nonconf:
+            print("NONCONFORMANCE model=WTFrame.tla scenarios=%s" % [n["scn"] for n in ctx.last_nonconf][:5])
+        viols += v
+        evs = M.read_trace(trace)
+        evs_all += evs
+        ctx.traces += summ.get("stats", {}).get("scenarios", 0)
+        ctx.events += lines
+        ctx.samples.append({"tlc_cell": cells[0]})
+        ctx.samples.append({k: (v if k != "wire" else "...") for k, v in next(e for e in evs if e["e"] == "wt.seq").items()})
+    if reader:
+        if not writer:
+            # the reader contract uses the reference codec; model-check the codec cells once for the evidence
+            M.tlc_model(ctx, "WTFrame", wt_cfg("{}", WT_LENS, "{4096}", 1, "Design_RoundTrip AsIs_HeaderExact"), "wt_codec")
+        trace, summ = M.go_family(ctx, "wtr", nrandom=300 if ctx.quick else 6000, timeout=2400)
+        v, lines = M.tlc_trace(ctx, "WTMon", MON_WT_CFG, "wtr", trace, timeout=2400)
+        viols += v
+        evs = M.read_trace(trace)
+        evs_all += evs
+        ctx.traces += summ.get("stats", {}).get("scenarios", 0)
+        ctx.events += lines
+        s = next(e for e in evs if e["e"] == "rd.case")
+        ctx.samples.append(s)
+    mine = [v for v in viols if v.get("prop") in props]
+    ctx.extra["breaches_attributed_to_other_properties"] = len(viols) - len(mine)
+    M.classify(ctx, mine)
+    return evs_all
+
+
+@prop("C13")
+def c13(ctx):
+    evs = wt_common(ctx, {"C13"}, writer=True, reader=False)
+    ctx.assumptions = ["payload byte equality is decided in Go (bytes.Equal) and logged as a boolean; lengths, kinds, frame counts and header bytes are judged in TLA+",
+                       "buffer geometries explored: write buffer 4096 (default), 16 and 1; pool off / on / shared by two connections"]
+    return M.finish(ctx, rule="one trace = one connection executing 1-4 write scripts (cells enumerated by TLC from WTFrame.tla) read back under "
+                    "whole/1-byte/header-cut/random fragmentation with two read-buffer sizes", evs=evs)
+
+
+@prop("C14")
+def c14(ctx):
+    evs = wt_common(ctx, {"C14"}, writer=True, reader=True)
+    ctx.assumptions = ["header bytes are compared in TLA+ with Header(kind,len) written from the protocol text; payload equality in Go"]
+    return M.finish(ctx, rule="encoder: one trace per write script, captured wire bytes split by an independent splitter; decoder: well-formed "
+                    "frame streams incl. non-minimal length forms fed to the reader", evs=evs)
+
+
+@prop("C15")
+def c15(ctx):
+    evs = wt_common(ctx, {"C15"}, writer=False, reader=True)
+    ctx.assumptions = ["a negative (top bit set) 64-bit length must be refused with the limit error; closing the session is demanded only for representable lengths above the limit",
+                       "the documented 1000th-call panic is excluded (at most 4 failing calls per stream)",
+                       "no coverage-guided fuzzing: streams are well-formed, truncated at every offset, mutated, random, huge-length and error-injected"]
+    return M.finish(ctx, rule="one trace = one byte stream fed to a real Conn (with a real webtransport.Session over the fake HTTP/3 layer when a "
+                    "read limit is set) and consumed with one of 4 patterns x 3 fragmentations", evs=evs)
